@@ -55,6 +55,15 @@ Theorem C13_parameters_are_drawn_in_get_params_partial :
 Proof. exact draws_inside_partial. Qed.
 Print Assumptions C13_parameters_are_drawn_in_get_params_partial.
 
+(* the record: documented keys only (no probability), every key holds the attribute of its own name, and the
+   annotation parameters the replay is rebuilt from persist each constructor argument under its own name *)
+Theorem C13_record_holds_each_setting_under_its_own_name :
+  forallb record_row_ok record_table = true /\
+  forallb todict_row_ok (filter is_params_row todict_table) = true /\
+  Nat.eqb (List.length (filter is_params_row todict_table)) 3 = true /\ Nat.eqb (List.length record_table) 2 = true.
+Proof. exact record_ok. Qed.
+Print Assumptions C13_record_holds_each_setting_under_its_own_name.
+
 (* non-vacuity: a nested tree with OneOf / OneOrOther / Sequential satisfies the hypotheses and fires leaves *)
 Example C13_concrete :
   let t := Comp 1 [OneOfN 1 [Leaf 1 1 false; SeqN 0 [Leaf 2 1 false; Leaf 3 0 true]]; OneOrOtherN (1#2) [Leaf 4 1 false; Leaf 5 1 false]] in
